@@ -6,11 +6,16 @@ import (
 	"encoding/binary"
 	"fmt"
 	"io"
+	"sort"
 
 	"github.com/ipfs/go-cid"
 
+	"github.com/ipfs/go-graphsync"
+	gsmsg "github.com/ipfs/go-graphsync/message"
 	gsmsgv2 "github.com/ipfs/go-graphsync/message/v2"
 	gsnet "github.com/ipfs/go-graphsync/network"
+	"github.com/ipld/go-ipld-prime/datamodel"
+	"github.com/ipld/go-ipld-prime/node/basicnode"
 )
 
 // c12: hostile bytes on some streams while an honest exchange runs on others.
@@ -136,6 +141,34 @@ func (s *c12) Build(w *World) {
 		}
 		mut, kind := mutateBytes(t, buf.Bytes())
 		if t.Chance(200) {
+			// well-formed CBOR, hostile content: a new request that leaves out what it must have,
+			// or carries something that is not a selector
+			id := ReqID(fmt.Sprintf("hostile-%d", i))
+			root := s.dag.Root.Cid
+			var sel datamodel.Node = AllSelector(3)
+			hk := t.Draw(7)
+			switch hk {
+			case 0:
+				sel = nil
+			case 1:
+				root = cid.Undef
+			case 2:
+				root, sel = cid.Undef, nil
+			case 3:
+				sel = basicnode.NewString("not a selector")
+			case 4:
+				sel = basicnode.NewInt(7)
+			case 5:
+				sel = roundTripNode(mapNode(map[string]datamodel.Node{"zz": basicnode.NewInt(1)}))
+			case 6:
+				sel = roundTripNode(mapNode(map[string]datamodel.Node{"R": mapNode(map[string]datamodel.Node{"l": basicnode.NewString("x")})}))
+			}
+			hm := gsmsg.NewMessage(map[graphsync.RequestID]gsmsg.GraphSyncRequest{id: gsmsg.NewRequest(id, root, sel, graphsync.Priority(1))}, nil, nil)
+			var hb bytes.Buffer
+			if err := handler.ToNet(s.m.ID, hm, &hb); err == nil {
+				mut, kind = hb.Bytes(), fmt.Sprintf("hostile-request-%d", hk)
+			}
+		} else if t.Chance(200) {
 			var ids [][]byte
 			for _, rq := range msg.Requests() {
 				ids = append(ids, rq.ID().Bytes())
@@ -233,4 +266,21 @@ func (s *c12) Final(w *World) *Violation {
 		return &Violation{Property: "C12", Rule: "R2", Signature: "malformed-not-reported", Detail: fmt.Sprintf("%d undecodable message(s) sent to the node, %d receive error(s) reported", wantErrA, gotErrA)}
 	}
 	return nil
+}
+
+// mapNode builds a basic map node.
+func mapNode(m map[string]datamodel.Node) datamodel.Node {
+	nb := basicnode.Prototype.Map.NewBuilder()
+	ma, _ := nb.BeginMap(int64(len(m)))
+	keys := make([]string, 0, len(m))
+	for k := range m {
+		keys = append(keys, k)
+	}
+	sort.Strings(keys)
+	for _, k := range keys {
+		_ = ma.AssembleKey().AssignString(k)
+		_ = ma.AssembleValue().AssignNode(m[k])
+	}
+	_ = ma.Finish()
+	return nb.Build()
 }
